@@ -87,6 +87,7 @@ fn queries(c: &DCase) -> Vec<String> {
 }
 
 pub fn check(c: &DCase) -> CheckResult {
+    let _gate = crate::util::memvid_section();
     let mut a = det::execute(c, "c23a", 0).map_err(|e| Fail::new("infra", e))?;
     let mut b = det::execute(c, "c23b-another-directory", 0).map_err(|e| Fail::new("infra", e))?;
     if a.aborted != b.aborted {
@@ -140,7 +141,10 @@ fn run_lite(c: &DCase, pause_ms: u64) -> Result<Value, Fail> {
     let dir = crate::util::Scratch::new("c23lite");
     let f = dir.path("case.json");
     std::fs::write(&f, serde_json::to_vec(&json!({"case": c, "pause_ms": pause_ms})).unwrap()).map_err(|e| Fail::new("infra", e.to_string()))?;
-    let out = std::process::Command::new(lite_bin()).arg("--child-c23").arg(&f).output().map_err(|e| Fail::new("infra", format!("cannot run the lite build: {e}")))?;
+    let mut cmd = std::process::Command::new(lite_bin());
+    cmd.arg("--child-c23").arg(&f).stdout(std::process::Stdio::piped()).stderr(std::process::Stdio::piped());
+    let child = crate::util::spawn_gated(&mut cmd).map_err(|e| Fail::new("infra", format!("cannot run the lite build: {e}")))?;
+    let out = child.wait_with_output().map_err(|e| Fail::new("infra", e.to_string()))?;
     if !out.status.success() {
         return Err(Fail::new("infra", format!("lite child failed: {}", String::from_utf8_lossy(&out.stderr))));
     }
